@@ -37,6 +37,8 @@ pub fn small() -> Vec<RVal> {
         s("-3"),
         s("%é %10N"),
         s("2020-02-29 10:00:00 +0100"),
+        // property paths (jekyll sort / where / map arguments): bracket index through a variable
+        s("k[zz]"),
         RVal::DateTime("9999-12-31 23:00:00 +0000".into()),
         // long non-ASCII texts: byte offsets such as 80 fall inside a character
         RVal::Str("aé".repeat(45)),
@@ -87,6 +89,8 @@ pub fn large() -> Vec<RVal> {
         s("%10"),
         s("<a>&"),
         s("a,b c"),
+        s("k[x]"),
+        s("k.first[0]"),
         RVal::Str("👍é".repeat(25)),
         arr((0..30).map(|_| s("ü")).collect()),
         s("2020-02-29"),
